@@ -90,7 +90,7 @@ CLAIMS = {
    ref="4/C16"),
  "C02": dict(
    text="Symbolic execution of the GENERATED code: the tool built from the current tree is run on a hand-written corpus at check time, the emitted functions are executed symbolically (operands arbitrary: symbolic scalars, nil-ness of nested pointers, slice lengths 0..2/nil) next to independent hand-written reference functions; the solver decides equality of results, final operand states, returned errors and user-function call traces for all operand values, and absence of Go run-time panics; sampled paths are replayed natively (go test on the real generated code) to validate the encoding.",
-   note=TB+"Programs: the corpus (7 cases, 60 generated functions); integer wrap-around and float arithmetic are not interpreted (conversions uninterpreted on both sides); panics inside user code are outside. Round 5: corpus case mix added (7 cases, 60 generated functions: arrays, maps nil or not, pointers to pointers, named slices, struct/error converters, getter chains, templated pointer paths).",
+   note=TB+"Programs: the corpus (7 cases, 61 generated functions); integer wrap-around and float arithmetic are not interpreted (conversions uninterpreted on both sides); panics inside user code are outside. Round 5: corpus case mix added (7 cases, 61 generated functions: arrays, maps nil or not, pointers to pointers, named slices, struct/error converters, getter chains, templated pointer paths).",
    technique="symbolic execution of the tool's generated code (go/ssa) against reference functions, SMT equality of symbolic results, native replay",
    ref="4/C02"),
  "C12": dict(
